@@ -396,9 +396,104 @@ func c11Value(p *prog, root *model.Node) model.Val {
 	case 2:
 		// native map / slice: marked by an unbound model node
 		t := spec.GenTree(r, spec.Opts{MaxDepth: 2, MaxWidth: 2, SafeKeys: true})
+		if r.Chance(1, 2) {
+			return typedFlavour(p, r)
+		}
 		return p.h.ModelFromSpec(t)
 	default:
 		return scalarVal(r)
+	}
+}
+
+// typedFlavour: a native argument of one of the typed map / slice flavours the library supports; the unbound model node
+// describes the fresh container it must become, h.TypedArgs holds the Go value itself.
+func typedFlavour(p *prog, r *rng.R) model.Val {
+	h := p.h
+	if h.TypedArgs == nil {
+		h.TypedArgs = map[*model.Node]any{}
+	}
+	p.c.Count("typed_flavour_values")
+	fresh := func(k spec.Kind) *model.Node {
+		return h.FromSpec(spec.GenTree(r, spec.Opts{MaxDepth: 1, MaxWidth: 2, SafeKeys: true, Root: k}))
+	}
+	n := r.Intn(3)
+	switch r.Intn(12) {
+	case 0:
+		a, b := fresh(spec.List), fresh(spec.List)
+		v := h.ModelFromSpec(spec.ObjV())
+		v.Ref.M["l"], v.Ref.M["m"] = model.Ref(a), model.Ref(b)
+		h.TypedArgs[v.Ref] = map[string]at.List{"l": a.List(), "m": b.List()}
+		return v
+	case 1:
+		a := fresh(spec.Obj)
+		v := h.ModelFromSpec(spec.ObjV())
+		v.Ref.M["o"] = model.Ref(a)
+		h.TypedArgs[v.Ref] = map[string]at.Object{"o": a.Object()}
+		return v
+	case 2:
+		a, b := fresh(spec.List), fresh(spec.List)
+		v := h.ModelFromSpec(spec.ListV())
+		v.Ref.E = []model.Val{model.Ref(a), model.Ref(b)}
+		h.TypedArgs[v.Ref] = []at.List{a.List(), b.List()}
+		return v
+	case 3:
+		a := fresh(spec.Obj)
+		v := h.ModelFromSpec(spec.ListV())
+		v.Ref.E = []model.Val{model.Ref(a)}
+		h.TypedArgs[v.Ref] = []at.Object{a.Object()}
+		return v
+	case 4:
+		s := []string{"a", "", "zz"}[:n]
+		t := spec.ListV()
+		for _, x := range s {
+			t.L = append(t.L, spec.StrV(x))
+		}
+		v := h.ModelFromSpec(t)
+		h.TypedArgs[v.Ref] = append([]string{}, s...)
+		return v
+	case 5:
+		s := []int{7, -1, 0}[:n]
+		t := spec.ListV()
+		for _, x := range s {
+			t.L = append(t.L, spec.IntV(x))
+		}
+		v := h.ModelFromSpec(t)
+		h.TypedArgs[v.Ref] = append([]int{}, s...)
+		return v
+	case 6:
+		s := []float64{0.5, -2, 1e21}[:n]
+		t := spec.ListV()
+		for _, x := range s {
+			t.L = append(t.L, spec.FloatV(x))
+		}
+		v := h.ModelFromSpec(t)
+		h.TypedArgs[v.Ref] = append([]float64{}, s...)
+		return v
+	case 7:
+		s := []bool{true, false, true}[:n]
+		t := spec.ListV()
+		for _, x := range s {
+			t.L = append(t.L, spec.BoolV(x))
+		}
+		v := h.ModelFromSpec(t)
+		h.TypedArgs[v.Ref] = append([]bool{}, s...)
+		return v
+	case 8:
+		v := h.ModelFromSpec(spec.ObjV("s", spec.StrV("x"), "t", spec.StrV("")))
+		h.TypedArgs[v.Ref] = map[string]string{"s": "x", "t": ""}
+		return v
+	case 9:
+		v := h.ModelFromSpec(spec.ObjV("i", spec.IntV(3)))
+		h.TypedArgs[v.Ref] = map[string]int{"i": 3}
+		return v
+	case 10:
+		v := h.ModelFromSpec(spec.ObjV("f", spec.FloatV(2.5)))
+		h.TypedArgs[v.Ref] = map[string]float64{"f": 2.5}
+		return v
+	default:
+		v := h.ModelFromSpec(spec.ObjV("b", spec.BoolV(true)))
+		h.TypedArgs[v.Ref] = map[string]bool{"b": true}
+		return v
 	}
 }
 
@@ -422,6 +517,9 @@ func collectReachable(n *model.Node, into map[*model.Node]bool) {
 // argFor: Go value for a model value; unbound containers stand for native maps/slices.
 func argFor(h *model.Heap, v model.Val) any {
 	if v.Ref != nil && v.Ref.Real == nil {
+		if a, ok := h.TypedArgs[v.Ref]; ok {
+			return a
+		}
 		return drive.Native(v.Ref.ToSpec())
 	}
 	return h.Arg(v)
